@@ -68,10 +68,9 @@ impl LinuxSllHeader {
             buffer
         };
 
-        Ok(
-            // SAFETY: Safe as the buffer contains exactly the needed LinuxSllHeader::LEN bytes.
-            unsafe { LinuxSllHeaderSlice::from_slice_unchecked(&buffer) }.to_header(),
-        )
+        // the packet type & ARP hardware type have to be validated
+        // (unsupported values are reported as an error)
+        Ok(LinuxSllHeader::from_bytes(buffer)?)
     }
 
     /// Serialize the header to a given slice. Returns the unused part of the slice.
